@@ -137,7 +137,7 @@ type RunOpts struct {
 }
 
 func defaultOpts() RunOpts {
-	return RunOpts{workers: 16, maxPaths: 200000, maxSteps: 3000000, solver: "z3-new,z3", timeout: 10000}
+	return RunOpts{workers: 16, maxPaths: 200000, maxSteps: 3000000, solver: "z3-new,z3", timeout: 25000}
 }
 
 func runHarness(p *Program, name string, o RunOpts) *HarnessResult {
@@ -316,8 +316,8 @@ func newExec(p *Program, ts *TermStore, sols []*Solver, harness string, prefix [
 		globals: map[*ssa.Global]*Value{}, locks: map[*Value]*lockState{}, onces: map[*Value]bool{}, avals: map[*Value]Value{},
 		inputSeen: map[string]bool{}, maxSteps: o.maxSteps, reached: map[string]bool{}, asserted: map[string]int{},
 		fnEntered: map[*ssa.Function]bool{}, finfo: map[*ssa.Function]*fnInfo{}, icept: map[*ssa.Function]interceptFn{},
-		counters: map[string]int{}, obsTerms: map[string]*Term{}, minfo: map[*ssa.Function]*mergeInfo{},
-		noMerge: os.Getenv("GSE_NOMERGE") != "",
+		picks: map[string]uint64{}, counters: map[string]int{}, obsTerms: map[string]*Term{}, minfo: map[*ssa.Function]*mergeInfo{},
+		noMerge: os.Getenv("GSE_NOMERGE") != "", qsites: os.Getenv("GSE_QSITES") != "",
 	}
 	return ex
 }
@@ -371,6 +371,7 @@ func (ex *Exec) runPath(fn *ssa.Function) (end pathEnd) {
 	ex.w.panicsAreFindings = true
 	ex.steps = 0
 	ex.call(nil, fn, nil, nil, nil)
+	ex.ensureFeasible()
 	ex.makeWitness()
 	return pathEnd{kind: endOK}
 }
